@@ -154,7 +154,10 @@ def main():
 
                 def crash_dump(obj, f, *a, **k):
                     data = pickle.dumps(obj, *a, **k)
-                    cut = {0: 0, 1: min(len(data), 3), 2: len(data) // 2}.get(point, len(data) - 1)
+                    fe = len(data) // 3
+                    if len(data) > 11 and data[0] == 0x80 and data[2] == 0x95:
+                        fe = min(len(data) - 1, 11 + int.from_bytes(data[3:11], "little"))
+                    cut = {0: 0, 1: min(len(data), 3), 2: len(data) // 2, 4: min(len(data), 2), 5: fe}.get(point, len(data) - 1)
                     f.write(data[:cut])
                     f.flush()
                     reply({"ok": True, "crashed": True, "file": getattr(f, "name", None), "cut": cut,
